@@ -1,0 +1,31 @@
+//go:build verif
+
+package server
+
+import "sort"
+
+// Third accessor file for the C15 harness (add-only).
+
+// VerifC15Session is a projection of one live session.
+type VerifC15Session struct {
+	RunID      string
+	ClientType string // loginMsg.ClientSpec.Type ("ssh-tunnel" for a virtual client of the ssh tunnel gateway)
+	User       string
+	PoolLen    int // len(ctl.workConnCh)
+}
+
+// VerifC15Sessions returns the live sessions sorted by run id.
+func (svr *Service) VerifC15Sessions() []VerifC15Session {
+	svr.ctlManager.mu.RLock()
+	defer svr.ctlManager.mu.RUnlock()
+	out := make([]VerifC15Session, 0, len(svr.ctlManager.ctlsByRunID))
+	for id, ctl := range svr.ctlManager.ctlsByRunID {
+		out = append(out, VerifC15Session{RunID: id, ClientType: ctl.loginMsg.ClientSpec.Type, User: ctl.loginMsg.User,
+			PoolLen: len(ctl.workConnCh)})
+	}
+	sort.Slice(out, func(i, j int) bool { return out[i].RunID < out[j].RunID })
+	return out
+}
+
+// VerifC15TCPPorts: name -> remote port of every tcp proxy in the server-wide proxy manager.
+func (svr *Service) VerifC15TCPPorts() map[string]int { return svr.pxyManager.VerifC15TCPPorts() }
